@@ -186,6 +186,15 @@ def plan(ctx, shapes, budget):
     for f in fixed:
         f.update({"id": len(scns) + 1, "shape": 0, "tick": False, "wval": False, "batchq": 0, "valctx": True})
         scns.append(f)
+    # mandatory in both tiers: a BACKLOG of validations (40 > the 32 slots of sendMsg) in progress at the
+    # cancellation and finishing after it - local Publish callers / received messages (asynchronous validator
+    # goroutines and both workers) - with the loop gone and with the loop parked at Cancel
+    for r in ROUTERS:
+        for b in ("local", "remote"):
+            for pk in (0, -1):
+                scns.append({"id": len(scns) + 1, "shape": 0, "router": r, "disc": False, "tcbl": False, "backlog": b, "parker": pk,
+                             "calls": [{"api": "PubSub.GetTopics", "pat": "SelSend_Recv", "phase": "before"}], "post": [],
+                             "tick": False, "wval": False, "batchq": 0, "valctx": False})
     return scns, need
 
 
@@ -258,7 +267,10 @@ def run(ctx):
             dict(cfg="MCLifecycleD9", ok=False, prop="P_C14_Returns_POR"),
             dict(cfg="MCLifecycleD10", ok=False, prop="P_C14_Returns_POR"),
             dict(cfg="MCLifecycleUnbuf", ok=False, prop="P_C14_Exit_POR"),
-            dict(cfg="MCLifecycleSmallD9", ok=False, prop="LiveReturns")]
+            dict(cfg="MCLifecycleSmallD9", ok=False, prop="LiveReturns"),
+            dict(cfg="MCLifecycleSendMsg", ok=False, prop="P_C14_Returns_POR"),     # sendMsgBlocking without its ctx arm:
+            dict(cfg="MCLifecycleSendMsgW", ok=False, prop="P_C14_Exit_POR"),       # callers block / the worker leaks
+            dict(cfg="MCLifecycleWorker2")]
     if ctx.thorough:
         jobs[0]["workers"] = 2
         jobs = [dict(cfg="MCLifecycle3", workers=3, timeout=1500, allow_timeout=True)] + jobs + [
@@ -370,6 +382,9 @@ def replay_and_judge(ctx, join_mc, mcs, mc_counts):
         else:
             raise vlib.Inconclusive("malformed trace: %s (scenario %s)" % (v["what"], v["scn"]))
         vlib.add_violation(ctx, v["pred"], sig, detail, {"scenario": sc, "lines": complete.get(v["scn"])})
+    if not any(v["pred"] == "P_C14_Returns" for v in viols):
+        # D9 / D10 are repaired in the tree under test: "the as-found model says it blocks" is no news
+        drifts = [d for d in drifts if "as-found" not in d["what"]]
     if drifts:
         kinds = {}
         for d in drifts:
@@ -404,6 +419,15 @@ def replay_and_judge(ctx, join_mc, mcs, mc_counts):
     new_viol = [v for v in ctx.violations if not any(vlib.sig_matches(f, v) for f in known)]
     if missing and not new_viol:
         raise vlib.Inconclusive("coverage obligation not met: %d (api, phase, router, discovery) cells never observed, e.g. %s" % (len(missing), missing[:4]))
+    # the backlog family (validations finishing after the cancellation must outnumber the sendMsg buffer)
+    bl_seen = set()
+    for k, ls in complete.items():
+        ex = [l for l in ls if l["e"] == "exit"]
+        if ex and ex[0].get("backlog") and ex[0].get("bl_n", 0) > 32 and (ex[0]["backlog"] == "local" or ex[0].get("bl_workers", 0) >= 2):
+            bl_seen.add((ex[0]["backlog"], bool(ex[0]["bl_parked"])))
+    bl_missing = sorted({(b, pk) for b in ("local", "remote") for pk in (False, True)} - bl_seen)
+    if bl_missing and not new_viol:
+        raise vlib.Inconclusive("coverage obligation not met: no scenario with > 32 validations finishing after the cancellation for (kind, loop parked) = %s" % bl_missing)
     need_phases = ["SelSend_Recv/handling", "SelSend_Recv/handoff", "SelSend_SelRecv/handling", "SelSend_SelRecv/handoff", "SelSend/handoff",
                    "SelSend_Unbuf/handoff", "Publish/validator", "Publish/handoff", "PublishBatch/after", "SubscribeDisc/handoff",
                    "SubscribeDisc/after", "CallerCtx/handoff"] + (["Publish/sendq", "PublishBatch/barefull"] if ctx.thorough else [])
@@ -425,7 +449,9 @@ def replay_and_judge(ctx, join_mc, mcs, mc_counts):
                        nconc, len(scns), len(shapes)),
            "exhaustive": False, "shapes_generated": len(shapes), "cells_required": len(need), "cells_observed": len(seen_cells & need),
            "position_hits": hits, "blocked_calls_explained_by_as_found_model": explained, "mc": mcs,
-           "as_found_configs_fail": ["MCLifecycleD9", "MCLifecycleD10", "MCLifecycleUnbuf", "MCLifecycleSmallD9"]}
+           "backlog_scenarios_observed": sorted(bl_seen),
+           "as_found_configs_fail": ["MCLifecycleD9", "MCLifecycleD10", "MCLifecycleUnbuf", "MCLifecycleSmallD9",
+                                     "MCLifecycleSendMsg", "MCLifecycleSendMsgW"]}
     return vlib.finish(ctx, LEVEL, cov, [
         "validators and other application callbacks return when the instance context is cancelled or when the application releases them (the harness does both)",
         "Go's select picks among ready cases at random: which of several pending requests the released loop serves before it sees ctx.Done is sampled, the model covers all choices",
